@@ -93,6 +93,10 @@ func Num(v any) int {
 		return int(x)
 	case int:
 		return x
+	case int64:
+		return int(x)
+	case uint64:
+		return int(x)
 	case json.Number:
 		i, _ := x.Int64()
 		return int(i)
